@@ -111,7 +111,7 @@ def check_config(ctx, F, tag):
             continue
         ok, info = twins.compare(A, B, subst)
         ctx.ob("C01.R2.twins-isomorphic", "%s ~ %s%s" % (a.split("::")[-1], b_.split("::")[-1], tag), loc(A.raw["span"]), ok, "mir-isomorphism",
-               ("isomorphic modulo %s (%d statements/terminators compared)" % (what, info)) if ok else ("twins diverge (allowed difference: %s): %s" % (what, info)))
+               ("isomorphic modulo %s (%d statements/terminators compared)" % (what, info)) if ok else ("twins diverge (allowed difference: %s): %s" % (what, info)), positive=ok is False)
     ctx.count("twin-pairs" + tag, len(TWINS))
 
     # ---------------- R3 cached count
